@@ -240,6 +240,11 @@ class SqlalchemyRender:
             if method is None:
                 raise NotImplementedError(f'Unknown unary operation: {t.op}')
             col = getattr(arg, method)()
+            if isinstance(col, sa.sql.elements.AsBoolean):
+                # NOT over an expression sqlalchemy types as Boolean is compiled to (x) = 0 / (x) = 1 for
+                # dialects without native booleans: ungrouped, and wrong for truthy values other than 1
+                col = sa.sql.elements.UnaryExpression(
+                    sa.sql.elements.Grouping(arg), operator=sa.sql.operators.inv, type_=sa.Boolean())
             if t.alias:
                 alias = self.get_alias(t.alias)
                 col = col.label(alias)
